@@ -13,7 +13,10 @@ tensors) with defaults that are mostly not the semiring's zero; (7) HISTORIES: s
 log_viterbi_einsum_forward) on the same operand objects, with in-place updates of their contents in between (writes
 through the storage, physical.mul_/add_/logical_not_, neg_(), *=), or equal-looking replacement objects (same axes
 objects and other contents; the same physical tensor under a new PatternedTensor, possibly with another default); every
-call is judged by the same check functions on the operands' contents at the time of the call."""
+call is judged by the same check functions on the operands' contents at the time of the call; (8) REFINEMENTS: indices of
+product type (flat atom lists) that different operands see through different factorisations (12 = 2x2x3 as 12 / 2*6 / 4*3 /
+2*2*3), mostly >= 3 operands in random order, block axes shared between two indices of one operand (vaxes (P*Q, Q)) and
+between operands: unify has to split factors that an earlier unification has already bound."""
 import itertools, math, random, json, warnings, traceback
 from fractions import Fraction
 from harness.core import *
@@ -142,8 +145,8 @@ def wire_out(sem, y):
     return (v * (1 - eps), v * (1 + eps))
 
 # ---------------------------------------------------------------------------- operands
-def gen_operand(rng, types, pool, sem, p_bc=0.15, p_zero_default=None, **kw):
-    vaxes, pool = U.gen_pattern(types, rng, pool, **kw)
+def gen_operand(rng, types, pool, sem, p_bc=0.15, p_zero_default=None, vaxes=None, **kw):
+    if vaxes is None: vaxes, pool = U.gen_pattern(types, rng, pool, **kw)
     paxes = U.fv_list(vaxes); rng.shuffle(paxes)
     sizes = [n for _, n in paxes]
     bc = [rng.random() < p_bc for _ in paxes]
@@ -286,6 +289,89 @@ def _gen_case(rng, sig, sem, budget=300, feature=None, variant="einsum", p_zero_
             s["storage"] = [4.0 if x == INF else x for x in s["storage"]]
             if s["default"] == INF: s["default"] = 4.0
     return dict(inputs=inputs, output=output, sem=sem, ops=ops, genabled=genabled, variant=variant, feature=feature)
+
+# ---------------------------------------------------------------------------- stream (8): refinements of product indices
+# An index of PRODUCT type p1 x p2 x ... x pk (a flat list of small atoms) may be seen by every operand through a
+# different factorisation: any grouping of CONSECUTIVE atoms into blocks, one PhysicalAxis per block (12 = 2x2x3 seen
+# as 12, 2*6, 4*3, 2*2*3).  Any two such groupings have a common refinement, so Axis.unify must succeed by SPLITTING
+# the larger last factor (the branches m < n and m > n of its product loop) -- also when that factor is ALREADY BOUND
+# by an earlier unification.  A block axis is shared (same PhysicalAxis object) between positions whose blocks have the
+# same atom list: between two indices of one operand (vaxes (P*Q, Q)), between operands when the pool is shared.
+REFINE_BASES = U.REFINE_BASES
+_blk_type = U.blk_type
+gen_refine_axis = U.gen_refine_axis
+
+def gen_refine_ltypes(rng, nl, budget):
+    """atom lists of the labels: the first is a base list, the others are mostly consecutive sub-lists of it (so that a
+    block of one index can be the whole of another: a factor axis shared between two indices)"""
+    for _ in range(200):
+        base = rng.choice(REFINE_BASES)
+        ls = [base]
+        for _l in range(1, nl):
+            c = rng.random()
+            if c < 0.6:
+                i = rng.randrange(len(base)); j = rng.randint(i + 1, len(base))
+                ls.append(base[i:j])
+            elif c < 0.85: ls.append(rng.choice(REFINE_BASES))
+            else: ls.append([rng.choice([2, 3, 4])])
+        rng.shuffle(ls)
+        if math.prod(math.prod(l) for l in ls) <= budget: return ls
+    return [[2, 2]] * nl
+
+def gen_refine_sig(rng):
+    """>= 3 operands (sometimes 2) of rank 1-2 over 1-3 indices, every index attached at least twice when possible"""
+    nl = rng.choice([1, 2, 2, 3])
+    nops = rng.choice([2, 3, 3, 3, 4])
+    for _ in range(100):
+        ins = [[rng.randrange(nl) for _ in range(rng.choice([1, 1, 2, 2, 3] if nl > 1 else [1, 1, 2]))] for _ in range(nops)]
+        cnt = [sum(w.count(l) for w in ins) for l in range(nl)]
+        if all(c >= 1 for c in cnt) and sum(c >= 2 for c in cnt) >= max(1, nl - 1) and sum(len(w) for w in ins) <= 7: break
+    else:
+        ins = [[l % nl] for l in range(max(nops, nl))]
+    out = rng.sample(range(nl), rng.randint(0, nl))
+    return ins, out
+
+def gen_refine_case(rng, sem, variant="einsum", budget=300, grad=False):
+    inputs, output = gen_refine_sig(rng)
+    nl = 1 + max(l for w in inputs for l in w)
+    ltypes = gen_refine_ltypes(rng, nl, budget)
+    share_pool = rng.random() < 0.35
+    pool = U.Pool(); ops = []
+    p_split = rng.choice([0.3, 0.5, 0.7]); p_share = rng.choice([0.3, 0.5, 0.8])
+    for w in inputs:
+        for _ in range(50):
+            pl = pool.copy() if share_pool else U.Pool(pool.next)
+            vaxes = [gen_refine_axis(ltypes[l], pl, rng, p_split, p_share) for l in w]
+            spec, _ = gen_operand(rng, [_blk_type(ltypes[l]) for l in w], pl, sem, p_bc=0.1, p_zero_default=0.75, vaxes=vaxes)
+            if math.prod(max(n, 1) for _, n in spec["paxes"]) <= 64: break
+        if share_pool: pool = pl
+        else: pool.next = pl.next
+        ops.append(spec)
+    genabled = True
+    if sem != "bool" and (grad or rng.random() < 0.25):
+        for s in ops:
+            if rng.random() < 0.6: s["rg"] = True
+        genabled = False
+    elif rng.random() < 0.3: genabled = False
+    if sem == "vit" and variant == "vit":
+        for s in ops:
+            s["storage"] = [4.0 if x == INF else x for x in s["storage"]]
+            if s["default"] == INF: s["default"] = 4.0
+    return dict(inputs=inputs, output=output, sem=sem, ops=ops, genabled=genabled, variant=variant, feature="refine",
+                ltypes=ltypes)
+
+def refine_profile(case):
+    """(some index is seen through >= 2 different factorisations, some operand shares a factor axis between two of its indices)"""
+    seen = {}
+    for w, s in zip(case["inputs"], case["ops"]):
+        for l, e in zip(w, s["vaxes"]):
+            seen.setdefault(l, set()).add(tuple(n for _, n in ([e[1]] if e[0] == "Phys" else [x[1] for x in e[1]])))
+    differ = any(len(v) > 1 for v in seen.values())
+    shared = False
+    for s in case["ops"]:
+        per = [set(U.a_fv(e)) for e in s["vaxes"]]
+        if any(per[i] & per[j] for i in range(len(per)) for j in range(i + 1, len(per))): shared = True
+    return differ, shared
 
 def has_both_infs(case):
     vals = [x for s in case["ops"] for x in list(s["storage"]) + [s["default"]]]
@@ -659,6 +745,14 @@ def make_cases(tier, seed):
             for sp in c["ops"]: sp["rg"] = False
         c["history"] = gen_history(rng, c, rng.choice([2, 2, 3]))
         cases.append(c)
+    # (8) refinements: indices of product type seen through DIFFERENT factorisations by different operands (12 = 2x2x3 as
+    # 12 / 2*6 / 4*3 / 2*2*3), >= 3 operands mostly, a factor axis shared between two indices of one operand, random
+    # operand order: unify has to split factors that are already bound by an earlier unification
+    for i in range(170 if quick else 6000):
+        r = i % 10
+        if r == 9: c = gen_refine_case(rng, "vit", variant="vit")
+        else: c = gen_refine_case(rng, SEMS[i % 4], grad=(r == 7))
+        cases.append(c)
     return cases, n_sigs
 
 def run_jobs(jobs, seed):
@@ -686,6 +780,11 @@ def run(tier, seed):
         if any(has_nested_zero(sp) for sp in case["ops"]): hist.setdefault("empty_physical_in_nonempty_shape", {"n": 0})["n"] += 1
         if any(sp["default"] != {"bool": False, "vit": -INF}.get(case["sem"], 0.0) for sp in case["ops"]):
             hist.setdefault("some_default_not_semiring_zero", {"n": 0})["n"] += 1
+        if case.get("feature") == "refine":
+            differ, shared = refine_profile(case)
+            h = hist.setdefault("refine", dict(cases=0, factorisations_differ=0, factor_shared_between_indices=0, both=0, operands_ge3=0))
+            h["cases"] += 1; h["factorisations_differ"] += differ; h["factor_shared_between_indices"] += shared; h["both"] += differ and shared
+            h["operands_ge3"] += len(case["ops"]) >= 3
         if changed:
             violations.append(Violation("einsum modified one of its operands", case=case, corr="corr:einsum (operands unchanged)", call="fggs.indices.einsum"))
         cf = checkfn_of(case)
@@ -761,6 +860,7 @@ def run(tier, seed):
                     "stream (6): index types with a zero-size summand (a + 0 + b, a + (0 x 2), (0 + 2) x 2, ...), some operand choosing the empty summand (an empty physical axis inside a non-empty virtual extent), default != semiring zero in about 2/3 of the operands, einsum / mv / mm / Viterbi; "
                     "stream (7): histories of 2-3 calls on the same operand objects (default != semiring zero in about 70%% of the operands), before every later call at least one operand is updated in place "
                     "(copy into the storage, scale, neg_, *=) or replaced by an equal-looking object (fresh object over the same axes; same physical tensor under a new PatternedTensor, also with another default), the entry point may change between calls; every call is one evaluation judged on the contents at that time; "
+                    "stream (8): refinements -- every index has a product type given as a flat list of atoms (2x2, 2x3, 2x2x3, 2x3x2, 2x2x2x2, 2x3x3, 2x2x5, ...; the other indices mostly consecutive sub-lists of the first), every operand sees it through a random grouping of consecutive atoms into blocks, one PhysicalAxis per block (12 as 12 / 2*6 / 4*3 / 2*2*3), a block axis is reused with probability 0.3-0.8 wherever the same atom list occurs (two indices of one operand: (P*Q, Q); other operands when the pool is shared), 2-4 operands (>= 3 in most) of rank 1-3 in random order, 4 semirings, requires_grad, the Viterbi variant in a tenth; histogram.refine counts the cases whose factorisations differ / share a factor between indices; "
                     "the whole storage, strides, offset and identity of the physical tensor, axes and default of every operand are compared before/after each call; non-trivial = some operand has a non-physical axis, a diagonal or an expanded (stride-0) dimension; distinct by full case data" % n_sigs,
                signatures_enumerated=n_sigs, histogram=hist, verdicts=verdicts, kernel_reevaluated=kern,
                theorem_certificate=dict(cases=n_cert, verdicts=cert_hist,
@@ -830,7 +930,7 @@ def replay(path):
 
 MANIFEST = dict(
     level="proof",
-    text="Coq theorems about a Gallina model of fggs.indices.einsum / log_viterbi_einsum_forward / project and fggs.equation.reduce_equation / post_einsum: the dense specification (empty list = one, zero-size summed index = zero, permutation invariance), the patterned algorithm equals the specification on the operands' denotations (re-indexing of the sum over virtual indices by the injective physical parametrisation; soundness half without the completeness premise; under decidable premises evaluated per case; WITHOUT premises for operands typed in a common context over good index types: C07_patterned_eq_dense_typed, all exits, any defaults, shared axes, __post_init__ included -- every certificate premise is derived from typing (C07_cert_premises_typed: the substitution is well typed and acyclic, unify is complete along the loop, default_to/freshen preserve the denotation), also mv/mm (C07_mv_typed, C07_mm_typed) and the Viterbi pointers (C07_argmax_typed)), reduce_equation is sound, the Viterbi pointers attain the maximum and are eval of the summed axes at the physical argmax (also for repeated output indices, repaired in /repo 3f6a623), mv/mm are instances. An operand with an empty physical axis is all-default whatever its virtual shape (C07_empty_physical_is_all_default / _denote). The model is tied to /repo by running both on generated signatures x typed patterns x 4 semirings x requires_grad, on operands with an empty physical axis inside a non-empty virtual extent and defaults other than the semiring zero, and on histories of calls on the same operand objects with in-place updates in between (each call judged on the contents at that time); the specification applied to brute-force denotations judges every implementation output inside Coq (exact carriers).",
+    text="Coq theorems about a Gallina model of fggs.indices.einsum / log_viterbi_einsum_forward / project and fggs.equation.reduce_equation / post_einsum: the dense specification (empty list = one, zero-size summed index = zero, permutation invariance), the patterned algorithm equals the specification on the operands' denotations (re-indexing of the sum over virtual indices by the injective physical parametrisation; soundness half without the completeness premise; under decidable premises evaluated per case; WITHOUT premises for operands typed in a common context over good index types: C07_patterned_eq_dense_typed, all exits, any defaults, shared axes, __post_init__ included -- every certificate premise is derived from typing (C07_cert_premises_typed: the substitution is well typed and acyclic, unify is complete along the loop, default_to/freshen preserve the denotation), also mv/mm (C07_mv_typed, C07_mm_typed) and the Viterbi pointers (C07_argmax_typed)), reduce_equation is sound, the Viterbi pointers attain the maximum and are eval of the summed axes at the physical argmax (also for repeated output indices, repaired in /repo 3f6a623), mv/mm are instances. An operand with an empty physical axis is all-default whatever its virtual shape (C07_empty_physical_is_all_default / _denote). The model is tied to /repo by running both on generated signatures x typed patterns x 4 semirings x requires_grad, on operands with an empty physical axis inside a non-empty virtual extent and defaults other than the semiring zero, and on histories of calls on the same operand objects with in-place updates in between (each call judged on the contents at that time), and on >= 3 operands whose product-typed indices are factorised differently per operand with factor axes shared between indices (unify splits axes that are already bound: C07_unify_keeps_bindings -- the model's unify only ever extends the substitution); the specification applied to brute-force denotations judges every implementation output inside Coq (exact carriers).",
     note="Known finding F23: log_viterbi_einsum_forward computes +inf + -inf = nan (torch_semiring_einsum's plain addition). Trusted: Coq kernel + vm_compute, extraction cross-checked against vm_compute, the Python harness (numbering of PhysicalAxis objects, reading of torch storage/strides, exp reading of the Log semiring within 1e-9), torch_semiring_einsum as the dense einsum under test.",
     technique="Coq proof (model + theorems) + model/implementation correspondence with a verified dense-specification oracle + per-case evaluation of the theorem's decidable premises",
     design_ref="DESIGN.md section 6, C07; section 7; Appendix A.6")
